@@ -387,6 +387,29 @@ func hostileDecoders() []hostileDecoder {
 		doc := &nbtNode{T: 10, Ent: []nbtEntry{{K: ints([]byte("text")), N: &nbtNode{T: 8, Pat: ints([]byte("hello"))}}, {K: ints([]byte("bold")), N: &nbtNode{T: 1, Pat: []int{1}}}}}
 		return nbtDocBytes("network", nil, doc), nil
 	}
+	regValid := func(rng *rand.Rand) ([]byte, []int) {
+		out := fvPut(nil, 2)
+		offs := []int{0}
+		for _, k := range []string{"minecraft:a", "minecraft:b"} {
+			offs = append(offs, len(out))
+			out = fvPut(out, int32(len(k)))
+			out = append(out, k...)
+			out = append(out, 1)
+			out = append(out, nbtDocBytes("network", nil, &nbtNode{T: 10, Ent: []nbtEntry{{K: ints([]byte("v")), N: &nbtNode{T: 3, Pat: []int{0, 0, 0, 7}}}}})...)
+		}
+		return out, offs
+	}
+	tagsValid := func(rng *rand.Rand) ([]byte, []int) {
+		out := fvPut(nil, 1)
+		offs := []int{0, len(out)}
+		out = fvPut(out, 5)
+		out = append(out, "mc:tg"...)
+		offs = append(offs, len(out))
+		out = fvPut(out, 2)
+		out = fvPut(out, 0)
+		out = fvPut(out, 1)
+		return out, offs
+	}
 	return []hostileDecoder{
 		{"level.Chunk.ReadFrom", func(rng *rand.Rand) ([]byte, []int) { return chunkBytes(rng, []int{1, 4, 24}[rng.Intn(3)]) }, func(in []byte) error {
 			secs := 24
@@ -418,33 +441,35 @@ func hostileDecoders() []hostileDecoder {
 			js := []byte(`{"text":"hi","bold":true,"extra":[{"text":"x","color":"red"}]}`)
 			return append(fvPut(nil, int32(len(js))), js...), []int{0}
 		}, func(in []byte) error { var m chat.JsonMessage; _, err := m.ReadFrom(bytes.NewReader(in)); return err }},
-		{"registry.Registry.ReadFrom", func(rng *rand.Rand) ([]byte, []int) {
-			out := fvPut(nil, 2)
-			offs := []int{0}
-			for _, k := range []string{"minecraft:a", "minecraft:b"} {
-				offs = append(offs, len(out))
-				out = fvPut(out, int32(len(k)))
-				out = append(out, k...)
-				out = append(out, 1)
-				out = append(out, nbtDocBytes("network", nil, &nbtNode{T: 10, Ent: []nbtEntry{{K: ints([]byte("v")), N: &nbtNode{T: 3, Pat: []int{0, 0, 0, 7}}}}})...)
-			}
-			return out, offs
-		}, func(in []byte) error {
+		{"registry.Registry.ReadFrom", regValid, func(in []byte) error {
 			reg := registry.NewRegistry[map[string]any]()
 			_, err := reg.ReadFrom(bytes.NewReader(in))
 			return err
 		}},
-		{"registry.Registry.ReadTagsFrom", func(rng *rand.Rand) ([]byte, []int) {
-			out := fvPut(nil, 1)
-			offs := []int{0, len(out)}
-			out = fvPut(out, 5)
-			out = append(out, "mc:tg"...)
-			offs = append(offs, len(out))
-			out = fvPut(out, 2)
-			out = fvPut(out, 0)
-			out = fvPut(out, 1)
-			return out, offs
-		}, func(in []byte) error {
+		// receivers that were not made by NewRegistry: the zero value (what a by-value field of a larger struct is), and
+		// one that has been read into before
+		{"registry.Registry.ReadFrom (zero-value receiver)", regValid, func(in []byte) error {
+			var reg registry.Registry[map[string]any]
+			_, err := reg.ReadFrom(bytes.NewReader(in))
+			return err
+		}},
+		{"registry.Registry.ReadFrom (used receiver)", regValid, func(in []byte) error {
+			reg := registry.NewRegistry[map[string]any]()
+			base, _ := regValid(nil)
+			reg.ReadFrom(bytes.NewReader(base))
+			_, err := reg.ReadFrom(bytes.NewReader(in))
+			return err
+		}},
+		{"registry.Registry.ReadTagsFrom (zero-value receiver, filled by ReadFrom)", tagsValid, func(in []byte) error {
+			var reg registry.Registry[map[string]any]
+			base, _ := regValid(nil)
+			if _, err := reg.ReadFrom(bytes.NewReader(base)); err != nil {
+				return nil // the ReadFrom decoders above speak about that
+			}
+			_, err := reg.ReadTagsFrom(bytes.NewReader(in))
+			return err
+		}},
+		{"registry.Registry.ReadTagsFrom", tagsValid, func(in []byte) error {
 			reg := registry.NewRegistry[int]()
 			reg.Put("a", 1)
 			reg.Put("b", 2)
